@@ -125,6 +125,17 @@ Section Indep.
     apply exit_order_canonical; [assumption | now apply filter_forall, filter_forall | now apply filter_nodup, filter_nodup | now apply filter_perm, filter_perm].
   Qed.
 
+  (* ... also when the target is a history pseudo-state (the exit set then depends on what is remembered) *)
+  Theorem exit_order_independent_h H d tgt :
+    sort_by (lt_depth_id m) (exit_set_h m C1 H d tgt) = sort_by (lt_depth_id m) (exit_set_h m C2 H d tgt).
+  Proof.
+    assert (Hf : forall f, sort_by (lt_depth_id m) (filter f C1) = sort_by (lt_depth_id m) (filter f C2)).
+    { intros f. apply exit_order_canonical; [assumption | now apply filter_forall | now apply filter_nodup | now apply filter_perm]. }
+    unfold exit_set_h. destruct (is_history m tgt); [|apply exit_order_independent].
+    destruct (is_parallel m d); [|apply Hf].
+    apply exit_order_canonical; [assumption | now apply filter_forall, filter_forall | now apply filter_nodup, filter_nodup | now apply filter_perm, filter_perm].
+  Qed.
+
   (* what history remembers, in order, is the same *)
   Theorem remembered_independent p : remembered m C1 p = remembered m C2 p.
   Proof.
